@@ -1,6 +1,9 @@
 package main
 
-import "fmt"
+import (
+	"fmt"
+	"sort"
+)
 
 const dbftPkg = "github.com/nspcc-dev/dbft"
 
@@ -180,18 +183,77 @@ func (c cellSpec) jobs(n int, want []string, budget int) []*Job {
 var allMsgApis = []int{apiChangeView, apiPrepareRequest, apiPrepareResponse, apiCommit, apiPreCommit, apiRecoveryRequest, apiRecoveryMessage}
 var allApis = []int{apiChangeView, apiPrepareRequest, apiPrepareResponse, apiCommit, apiPreCommit, apiRecoveryRequest, apiRecoveryMessage, apiTimeout, apiTransaction, apiNewTransaction}
 
+// splitHeavy replaces the cells known to dominate the wall clock (anti-MEV recovery messages
+// carrying responses/pre-commits, anti-MEV PreCommit/PrepareResponse with the proposal known) by
+// one job per sender index: the case split on the symbolic sender happens across workers
+// instead of inside one. The union of the split jobs covers exactly the original job.
+func splitHeavy(j *Job) []*Job {
+	pm := j.Params
+	if pm["cls"] != 0 || pm["split"] != 0 || pm["rsplit"] != 0 {
+		return []*Job{j}
+	}
+	key := ""
+	switch {
+	case pm["api"] == apiRecoveryMessage && (pm["rresp"] > 0 || pm["rpc"] > 0 || pm["rc"] > 0 || pm["rcv"] > 0):
+		key = "rsplit"
+	case pm["api"] == apiPreCommit && pm["req"] == 1 && pm["amev"] == 1:
+		key = "split"
+	default:
+		return []*Job{j}
+	}
+	var out []*Job
+	n := pm["n"]
+	for k := 0; k <= n; k++ {
+		if k == pm["my"] && pm["watch"] != 1 {
+			continue // own payloads are not fed back to an active node
+		}
+		c := *j
+		c.Params = map[string]int{}
+		for a, b := range pm {
+			c.Params[a] = b
+		}
+		c.Params[key] = k + 1
+		out = append(out, &c)
+	}
+	return out
+}
+
+// jobWeight orders jobs longest-first (measured): the slowest cells start first so that the
+// wall clock is the longest job, not the longest job queued last.
+func jobWeight(j *Job) int {
+	pm := j.Params
+	w := pm["amev"]*4 + pm["req"]*2 + pm["ncache"]*3 + pm["ntx"]
+	switch pm["api"] {
+	case apiRecoveryMessage:
+		w += 6
+	case apiPreCommit, apiPrepareResponse:
+		w += 4
+	case apiCommit, apiPrepareRequest, apiTransaction:
+		w += 3
+	case apiChangeView, apiTimeout:
+		w += 1
+	}
+	if pm["cls"] != 0 {
+		w = 0
+	}
+	return w
+}
+
 func stepPlan(prop, tier string, want []string, cells []cellSpec, budget int) *Plan {
 	p := &Plan{Property: prop, Tier: tier, Patterns: []string{"."}}
 	seen := map[string]bool{}
 	for _, c := range cells {
-		for _, j := range c.jobs(4, want, budget) {
-			k := j.String()
-			if !seen[k] {
-				seen[k] = true
-				p.Jobs = append(p.Jobs, j)
+		for _, j0 := range c.jobs(4, want, budget) {
+			for _, j := range splitHeavy(j0) {
+				k := j.String()
+				if !seen[k] {
+					seen[k] = true
+					p.Jobs = append(p.Jobs, j)
+				}
 			}
 		}
 	}
+	sort.SliceStable(p.Jobs, func(a, b int) bool { return jobWeight(p.Jobs[a]) > jobWeight(p.Jobs[b]) })
 	p.Assumptions = append(append([]string{}, stepAssumptions...), commonAssumptions...)
 	p.Bounds = map[string]string{
 		"validators":    "N = 4 (own index and primary index concrete per job; sender index symbolic)",
@@ -213,6 +275,8 @@ func init() {
 	planRegistry["C07"] = planC07
 	planRegistry["C10"] = planC10
 	planRegistry["C13"] = planC13
+	planRegistry["C01"] = planC01
+	planRegistry["C15"] = planC15
 	planRegistry["C05"] = planC05
 	planRegistry["C11"] = planC11
 	planRegistry["C12"] = planC12
@@ -483,4 +547,98 @@ func resetJobs(tier string) []*Job {
 		}
 	}
 	return js
+}
+
+func planC15(tier string) *Plan {
+	want := []string{"C15"}
+	p := &Plan{Property: "C15", Tier: tier, Patterns: []string{"."}}
+	ns := []int{4, 1}
+	pools := []int{0, 2}
+	incs := []int{0, 1}
+	if tier == "thorough" {
+		ns = []int{1, 2, 4, 7}
+		pools = []int{0, 1, 2, 3}
+		incs = []int{0, 1, 2}
+	}
+	for _, n := range ns {
+		for _, tsinc := range incs {
+			// division/truncation by the increment: bit-blasting back ends need ~90 s per job,
+			// cvc5's bit-vectors-as-integers translation < 10 s (DESIGN §2)
+			solver := "cvc5-int"
+			for _, npool := range pools {
+				for _, amev := range []int{0, 1} {
+					for _, mx := range []int{0, 1} {
+						for _, api := range []int{apiTimeout, apiNewTransaction} {
+							if api == apiNewTransaction && mx == 0 {
+								continue
+							}
+							c := stepCfg{n: n, my: 0, prim: 0, amev: amev, maxtpb: mx, req: 0, api: api, extra: map[string]int{"npool": npool, "tsinc": tsinc, "decided": 2}}
+							j := stepJob(c, want)
+							j.Solver = solver
+							j.BudgetS = 600
+							p.Jobs = append(p.Jobs, j)
+						}
+						// the proposal made by Start
+						j := &Job{Pkg: dbftPkg, Entry: "H_reset", Solver: solver, Want: want, BudgetS: 600, Params: map[string]int{
+							"n": n, "my": 0, "prim": 0, "amev": amev, "maxtpb": mx, "n2": n, "my2": 0, "start": 1, "npool": npool, "tsinc": tsinc, "prim2set": 1, "prim2": 0}}
+						p.Jobs = append(p.Jobs, j)
+					}
+				}
+			}
+		}
+	}
+	p.MustCover = []string{"C15.proposal", "event.processblock"}
+	p.MustAssert = []string{"C15.O1.increasing", "C15.O2.value", "C15.O2.clock", "C15.O3.args", "C15.O3.pool", "C15.O4.context", "C15.O4.block"}
+	p.Assumptions = append([]string{
+		"previous block timestamp and clock reading below 2^62, TimestampIncrement in [1, 2^40] (no 64-bit overflow of lastBlockTimestamp + increment)",
+		"GetVerified returns pairwise distinct transactions",
+	}, append(append([]string{}, stepAssumptions...), commonAssumptions...)...)
+	p.Bounds = map[string]string{
+		"validators":  fmt.Sprintf("N in %v, the node is the primary of the current view", ns),
+		"pool":        fmt.Sprintf("verified pool of %v transactions with symbolic hashes", pools),
+		"increment":   "the default 10^6 ns; ANY increment in [1, 2^40] (cvc5 bit-vectors as integers); thorough adds any power of two as a shift",
+		"clock":       "symbolic clock reading (behind, equal, ahead of the previous block's timestamp; unaligned)",
+		"entry_points": "OnTimeout and OnNewTransaction from an arbitrary Inv state of a primary that has not proposed yet; Start on a fresh instance",
+	}
+	p.Outside = []string{"pools with more than 3 transactions", "64-bit overflow of the timestamp (year 2116 and later)"}
+	p.Explanation = "Symbolic execution of the real OnTimeout/OnNewTransaction/Start on the proposing branch (sendPrepareRequest -> makePrepareRequest -> Context.Fill -> getTimestamp) with the previous block's timestamp, the clock reading, the timestamp increment and the pool content as solver variables. At the PrepareRequest broadcast the solver proves: timestamp > previous timestamp; timestamp = max(previous + increment, clock truncated to the increment) with the truncation's defining properties; NewPrepareRequest received exactly (timestamp, nonce, pool hashes in order) and the payload carries them; the context holds the same values and every pool transaction; every NewBlockFromContext call of the primary sees those values."
+	return p
+}
+
+func planC01(tier string) *Plan {
+	want := []string{"C01", "C02", "C03"}
+	am := []int{0, 1}
+	cells := []cellSpec{
+		// L3 decision certificate, L4 binding, L5 height isolation: the APIs that can reach ProcessBlock or store commits
+		{roles: []int{0, 1}, amevs: am, reqs: []int{0, 1}, apis: []int{apiPrepareRequest, apiCommit, apiPreCommit, apiPrepareResponse}},
+		{roles: []int{-1}, amevs: am, reqs: []int{0, 1}, apis: []int{apiCommit}},
+		// L1/L2 commit lock and single commit: the APIs that can change view or send
+		{roles: []int{0, 1}, amevs: am, reqs: []int{1}, apis: []int{apiChangeView, apiTimeout, apiRecoveryRequest}},
+		{roles: []int{1}, amevs: am, reqs: []int{1}, tx: [][2]int{{1, 0}}, apis: []int{apiTransaction}},
+	}
+	cells = append(cells, cellSpec{roles: []int{1}, amevs: am, reqs: []int{1}, apis: []int{apiRecoveryMessage}, extra: map[string]int{"rcv": 1}},
+		cellSpec{roles: []int{1}, amevs: am, reqs: []int{0}, apis: []int{apiRecoveryMessage}, extra: map[string]int{"rc": 1}},
+		cellSpec{roles: []int{1}, amevs: am, reqs: []int{0}, apis: []int{apiRecoveryMessage}, extra: map[string]int{"rreq": 1}})
+	if tier == "thorough" {
+		cells = append(cells, cellSpec{roles: []int{0, 1, 2, -1}, amevs: am, reqs: []int{0, 1}, apis: allApis})
+		cells = append(cells, recCells([]int{0, 1, 2}, am, []int{0, 1})...)
+	}
+	p := stepPlan("C01", tier, want, cells, 900)
+	maxN := 10
+	for n := 1; n <= maxN; n++ {
+		j := job("H_C01_intersect", "z3-new", "n", n)
+		j.Timeout = 60000
+		p.Jobs = append(p.Jobs, j)
+	}
+	for _, e := range []string{"quorum"} {
+		j := job("H_C06_"+e, "cvc5-int")
+		j.Timeout = 60000
+		p.Jobs = append(p.Jobs, j)
+	}
+	p.MustCover = []string{"C01.Q.reached", "event.processblock", "C03.O3.committed", "step.end"}
+	p.MustAssert = []string{"C01.Q.intersect", "C01.Q.lockedblocksview", "C06.O2.intersect", "C02.O1.certificate", "C03.O3.view", "C03.O2.slot", "C03.O3.nocv.commit", "INV"}
+	p.Bounds["composition"] = "per-node obligations at N=4 (one inductive step from any Inv state); quorum intersection as a set query for every N in 1..10 and as arithmetic (2M-N >= F+1) for every N in 1..65535"
+	p.Outside = append(p.Outside, "the step from the per-node obligations to the multi-node statement is a paper argument (DESIGN §6 C01): two accepted blocks b != b' at one height give, by L3 and Q, an honest validator whose valid commits are counted for both; by L4 it signed both; L1/L2 forbid that", "states that are reachable only through known finding KF-1")
+	p.Explanation = "Agreement is decided compositionally. Solver-decided on the real code (one symbolic step of every relevant API from every Inv state, N=4): L1 commit lock and L2 single commit with identical retransmissions (the C03 obligations), L3 decision certificate: every successful ProcessBlock holds >= M current-view commits verifying against exactly that block (C02.O1), L4 the own commit signs the header built from the stored proposal and L5 only payloads of the node's height are stored (Inv conjuncts 3, 5, 11, 12, asserted on every post-state). Solver-decided on the real M()/F(): any two M-sets minus any F-set intersect (every N <= 10 as a bit-set query, every N <= 65535 arithmetically), and M-F locked honest validators leave fewer than M possible change-view senders."
+	return p
 }
